@@ -23,8 +23,12 @@ chk("C18", "schedsim", "exploration",
     "Trusted: Go's race detector; linux/amd64 raw futex hand-over (self-tested on every invocation: two serialised conflicting writes must be reported, else exit 2); go/ast rewriter (a file it cannot parse or a copy that does not compile is exit 2). Races only between two fmt error-formatting paths can be hidden by sync.Pool edges (DESIGN.md 4.5).",
     "deterministic scheduler simulation (seeded interleavings of real goroutines) + race detector + solo-equality + shared-state immutability", "DESIGN.md section 4, section 7 C18")
 
+chk("C05", "chansim", "fault_enumeration",
+    "Library encoder (primary) or reference sender -> module matrix -> faults placed through an independent layout model (QR zig-zag/mask/interleave from first principles, Data Matrix Annex F placement) -> real decoder. A single-codeword fault is enumerated at every codeword of every block for all 160 QR (version, level) pairs and all 30 Data Matrix sizes; seeded plans go up to exactly floor(ec/2) codewords in every block plus 3 flips in each of the four format/version copies at once. Oracle: no error, sent text, the undamaged symbol's raw data codewords and EC level.",
+    "Trusted: the harness layout models; they are validated on every run (each library-made symbol must show zero reference syndromes through the harness layout, and reference-made symbols must decode). A control failing outside the RS/BCH layer is skipped and counted, never reported.",
+    "fault enumeration on a simulated print-and-scan medium (module flips at placed codeword positions within the ECC budget)", "DESIGN.md section 5, section 7 C05")
+
 PENDING.update({
- "C05": "claimed by the design (chansim) but its check is not built yet at this commit",
  "C10": "claimed by the design (chansim) but its check is not built yet at this commit",
  "C11": "claimed by the design (chansim) but its check is not built yet at this commit",
  "C17": "claimed by the design (histsim) but its check is not built yet at this commit",
